@@ -4,6 +4,10 @@
 #include <jsoncons_ext/msgpack/msgpack.hpp>
 #include <array>
 #include <bitset>
+#include <forward_list>
+#include <list>
+#include <deque>
+#include <unordered_map>
 #include <map>
 #include <set>
 #include <tuple>
@@ -26,6 +30,37 @@ public:
     int getA() const { return a_; } void setA(int v) { a_ = v; }
     const std::string& getB() const { return b_; } void setB(const std::string& v) { b_ = v; }
 };
+struct n_members_name { int a; std::string b; jsoncons::optional<int> c; };
+class n_ctor_getter {
+    int a_; std::string b_; jsoncons::optional<int> c_;
+public:
+    n_ctor_getter(int a, const std::string& b, const jsoncons::optional<int>& c = jsoncons::optional<int>()) : a_(a), b_(b), c_(c) {}
+    int a() const { return a_; }
+    const std::string& b() const { return b_; }
+    const jsoncons::optional<int>& c() const { return c_; }
+};
+class n_ctor_getter_name {
+    int a_; std::string b_; jsoncons::optional<int> c_;
+public:
+    n_ctor_getter_name(int a, const std::string& b, const jsoncons::optional<int>& c = jsoncons::optional<int>()) : a_(a), b_(b), c_(c) {}
+    int a() const { return a_; }
+    const std::string& b() const { return b_; }
+    const jsoncons::optional<int>& c() const { return c_; }
+};
+class n_getter_setter {
+    int a_{0}; std::string b_; jsoncons::optional<int> c_;
+public:
+    int getA() const { return a_; } void setA(int v) { a_ = v; }
+    const std::string& getB() const { return b_; } void setB(const std::string& v) { b_ = v; }
+    const jsoncons::optional<int>& getC() const { return c_; } void setC(const jsoncons::optional<int>& v) { c_ = v; }
+};
+class n_getter_setter_name {
+    int a_{0}; std::string b_; jsoncons::optional<int> c_;
+public:
+    int getA() const { return a_; } void setA(int v) { a_ = v; }
+    const std::string& getB() const { return b_; } void setB(const std::string& v) { b_ = v; }
+    const jsoncons::optional<int>& getC() const { return c_; } void setC(const jsoncons::optional<int>& v) { c_ = v; }
+};
 enum class colour { red, green, blue };
 struct base { virtual ~base() = default; virtual int kind() const = 0; };
 struct derived1 : base { int x{0}; int kind() const override { return 1; } };
@@ -33,6 +68,11 @@ struct derived2 : base { std::string y; int kind() const override { return 2; } 
 }
 JSONCONS_ALL_MEMBER_TRAITS(jcsa_reflect::all_members, a, b, c)
 JSONCONS_N_MEMBER_TRAITS(jcsa_reflect::n_members, 2, a, b, c)
+JSONCONS_N_MEMBER_NAME_TRAITS(jcsa_reflect::n_members_name, 2, (a, "A"), (b, "B"), (c, "C"))
+JSONCONS_N_CTOR_GETTER_TRAITS(jcsa_reflect::n_ctor_getter, 2, a, b, c)
+JSONCONS_N_CTOR_GETTER_NAME_TRAITS(jcsa_reflect::n_ctor_getter_name, 2, (a, "A"), (b, "B"), (c, "C"))
+JSONCONS_N_GETTER_SETTER_TRAITS(jcsa_reflect::n_getter_setter, get, set, 2, A, B, C)
+JSONCONS_N_GETTER_SETTER_NAME_TRAITS(jcsa_reflect::n_getter_setter_name, 2, (getA, setA, "a"), (getB, setB, "b"), (getC, setC, "c"))
 JSONCONS_ALL_CTOR_GETTER_TRAITS(jcsa_reflect::ctor_getter, a, b)
 JSONCONS_ALL_GETTER_SETTER_TRAITS(jcsa_reflect::getter_setter, get, set, A, B)
 JSONCONS_ENUM_TRAITS(jcsa_reflect::colour, red, green, blue)
@@ -77,11 +117,20 @@ void jcsa_use_reflect(const std::string& s, const std::vector<uint8_t>& b)
     jcsa_roundtrip<std::map<std::string, int>>(s, b);
     jcsa_json_only<std::set<std::string>>(s);   // encoding std::set<int> does not compile (typed-array path, observation N6)
     jcsa_roundtrip<std::valarray<double>>(s, b);
+    jcsa_roundtrip<std::forward_list<std::string>>(s, b);   // numeric element types of forward_list/deque do not compile (typed-array path, N6)
+    jcsa_roundtrip<std::list<std::string>>(s, b);
+    jcsa_roundtrip<std::deque<std::string>>(s, b);
+    jcsa_roundtrip<std::unordered_map<std::string, int>>(s, b);
     jcsa_roundtrip<std::bitset<16>>(s, b);
     jcsa_roundtrip<jsoncons::optional<int>>(s, b);
     jcsa_roundtrip<jcsa_reflect::all_members>(s, b);
     jcsa_roundtrip<jcsa_reflect::n_members>(s, b);
     jcsa_roundtrip<jcsa_reflect::ctor_getter>(s, b);
+    jcsa_roundtrip<jcsa_reflect::n_members_name>(s, b);
+    jcsa_roundtrip<jcsa_reflect::n_ctor_getter>(s, b);
+    jcsa_roundtrip<jcsa_reflect::n_ctor_getter_name>(s, b);
+    jcsa_roundtrip<jcsa_reflect::n_getter_setter>(s, b);
+    jcsa_roundtrip<jcsa_reflect::n_getter_setter_name>(s, b);
     jcsa_roundtrip<jcsa_reflect::getter_setter>(s, b);
     jcsa_roundtrip<jcsa_reflect::colour>(s, b);
     jcsa_roundtrip<std::shared_ptr<jcsa_reflect::base>>(s, b);
